@@ -210,7 +210,7 @@ Definition source_block (w : world) (p : nat) : world * yld :=
   | 2%nat =>
       (* an item is due: create it *)
       let item := length (witems w) in
-      let w := w <| witems ::= fun l => l ++ [item0 <| i_src := n |>] |> in
+      let w := w <| witems ::= fun l => l ++ [item0 <| i_src := n |> <| i_pallet := npallet nd |>] |> in
       let w := upd_node w n (fun x => x <| ngen ::= S |>) in
       let w := logw w (LGen (wnow w) n item) in
       let w := upd_proc w p (fun x => x <| pit := item |>) in
@@ -556,6 +556,339 @@ Definition fleetmove_block (w : world) (p : nat) : world * yld :=
                     end) (plst pr) w, YDone)
   end.
 
+(* ------------------------------------------------------------------ Splitter / Combiner *)
+
+(* check_thread_state_and_update_{splitter,combiner}_state *)
+Definition check_state (w : world) (n : nat) : world :=
+  let nd := get_node w n in
+  let '(p, b) := count_threads nd in
+  if (p + b >? Z.of_nat (nwcap nd)) then crashw w (CAssert 110) else
+  if (p =? 0) && (b =? 0) then update_state w n 1
+  else if p >? 0 then update_state w n 2
+  else if b =? Z.of_nat (length (nthreads nd)) then update_state w n 3
+  else crashw w (CValue 111).
+
+Definition sc_request (w : world) (p n : nat) (pc : nat) : world * yld :=
+  match res_request (wk w) n (nres (get_node w n)) with
+  | None => (crashw w (CDoubleSucceed 112), YDone)
+  | Some (k, r, q) =>
+      let w := upd_node (w <| wk := k |>) n (fun x => x <| nres := r |>) in
+      (setpc (upd_proc w p (fun x => x <| ptk := q |>)) p pc, YEvent q)
+  end.
+
+Definition is_buffer (w : world) (e : nat) : bool := match ek (get_edge w e) with EBuffer => true | _ => false end.
+
+(* the push of one flow item by a splitter / combiner worker; [plst] = [current item; phase] *)
+Definition sc_cur (pr : proc) : nat := nth 0 (plst pr) 0%nat.
+Definition sc_phase (pr : proc) : nat := nth 1 (plst pr) 0%nat.
+
+Definition sc_release (w : world) (p n : nat) : world * yld :=
+  match res_release (wk w) n (nres (get_node w n)) (ptk (me w p)) with
+  | None => (crashw w (CDoubleSucceed 113), YDone)
+  | Some (k, r, g) => (setpc (upd_node (w <| wk := k |>) n (fun x => x <| nres := r |>)) p 9, YEvent g)
+  end.
+
+Definition sc_dispatch (w : world) (p n : nat) (cur phase : nat) : world * yld :=
+  let nd := get_node w n in
+  let w := upd_proc w p (fun x => x <| plst := [cur; phase] |>) in
+  let drop w := logw (upd_node w n (fun x => x <| ndisc ::= S |>)) (LDiscard (wnow w) n cur) in
+  match noutsel nd with
+  | PFirst =>
+      if nblocking nd then
+        let w := check_state w n in
+        let w := set_thread w n p true in
+        let w := check_state w n in
+        let w := upd_proc w p (fun x => x <| pt1 := wnow w |>) in
+        let '(w, toks) := reserve_all w p (nouts nd) true in
+        let '(w, c) := w_any_of w toks in
+        (setpc (upd_proc w p (fun x => x <| ptks := toks |>)) p 2, YEvent c)
+      else
+        match first_can_put w (nouts nd) with
+        | Some e =>
+            let w := upd_proc w p (fun x => x <| pt1 := wnow w |>) in
+            let w := check_state w n in
+            let w := set_thread w n p true in
+            let w := check_state w n in
+            if is_buffer w e then
+              let '(w, done) := spawn_push w n cur e false in (setpc w p 3, YEvent done)
+            else (crashw w (CValue 114), YDone)
+        | None => (setpc (drop w) p 8, YEvent 0%nat)
+        end
+  | _ =>
+      let '(w, v) := draw_sel w n true in
+      match v with
+      | None => (crashw w (CValue 115), YDone)
+      | Some i =>
+          if negb (in_range i (length (nouts nd))) then (crashw w (CAssert 116), YDone) else
+          let w := logw w (LSel n true (Z.to_nat i)) in
+          let e := nth (Z.to_nat i) (nouts nd) 0%nat in
+          let w := set_thread w n p true in
+          let w := check_state w n in
+          if nblocking nd then
+            let w := upd_proc w p (fun x => x <| pt1 := wnow w |>) in
+            let '(w, t) := e_reserve_put w e p in
+            (setpc (upd_proc w p (fun x => x <| ptks := [t] |> <| pix := e |>)) p 5, YEvent t)
+          else if e_can_put w e then
+            let w := upd_proc w p (fun x => x <| pt1 := wnow w |>) in
+            if is_buffer w e then
+              let '(w, done) := spawn_push w n cur e false in (setpc w p 6, YEvent done)
+            else (crashw w (CValue 117), YDone)
+          else (setpc (drop w) p 8, YEvent 0%nat)
+      end
+  end.
+
+(* the worker continues after one push (or drop): next content item, then the pallet itself, then release *)
+Definition sc_next (w : world) (p n : nat) : world * yld :=
+  let pr := me w p in
+  match pkd pr, sc_phase pr with
+  | KSplitWorker, 0%nat =>
+      let pal := pit pr in
+      match i_contents (get_item w pal) with
+      | x :: rest => sc_dispatch (upd_item w pal (fun y => y <| i_contents := rest |>)) p n x 0
+      | [] => sc_dispatch w p n pal 1
+      end
+  | _, _ => sc_release w p n
+  end.
+
+(* continuation points 2,3,5,6 of the dispatch; 8 = "dropped" (no yield in the Python: handled inline) *)
+Definition sc_worker_cont (w : world) (p n : nat) : world * yld :=
+  let pr := me w p in
+  let nd := get_node w n in
+  let cur := sc_cur pr in
+  match ppc pr with
+  | 2%nat =>
+      match first_triggered w (ptks pr) with
+      | None => (crashw w (CValue 118), YDone)
+      | Some (idx, tok) =>
+          let w := logw w (LSel n true idx) in
+          let w := cancel_others w (nouts nd) (ptks pr) tok true in
+          let e := nth idx (nouts nd) 0%nat in
+          if negb (is_buffer w e) then (crashw w (CValue 119), YDone) else
+          let w := upd_node w n (fun x => x <| nprocd ::= S |>) in
+          let w := e_put w e p tok cur in
+          sc_next (add_blocked_time w p n) p n
+      end
+  | 3%nat | 6%nat =>
+      let w := upd_node w n (fun x => x <| nprocd ::= S |>) in
+      sc_next (add_blocked_time w p n) p n
+  | 5%nat =>
+      let w := upd_node w n (fun x => x <| nprocd ::= S |>) in
+      let w := e_put w (pix pr) p (hd 0%nat (ptks pr)) cur in
+      sc_next (add_blocked_time w p n) p n
+  | 9%nat =>
+      let w := upd_node w n (fun x => x <| nthreads ::= filter (fun y => negb (Nat.eqb (fst y) p)) |>) in
+      let w := occupancy w n false in
+      (check_state w n, YDone)
+  | _ => sc_next w p n
+  end.
+
+(* a dropped item does not yield in the Python; the model uses pc 8 with a dummy yield that the
+   resume loop must not wait on -- so drops are resolved here, before returning *)
+Fixpoint sc_run (fuel : nat) (w : world) (p n : nat) (r : world * yld) : world * yld :=
+  match fuel with
+  | O => (crashw (fst r) CFuel, YDone)
+  | S f =>
+      let '(w1, y) := r in
+      match wcrash w1 with
+      | Some _ => r
+      | None => if Nat.eqb (ppc (me w1 p)) 8 then sc_run f w1 p n (sc_next (setpc w1 p 7) p n) else r
+      end
+  end.
+
+Definition splitworker_block (w : world) (p : nat) : world * yld :=
+  let pr := me w p in
+  let n := pown pr in
+  match ppc pr with
+  | 0%nat =>
+      let w := check_state w n in
+      let w := upd_proc w p (fun x => x <| pt0 := wnow w |>) in
+      let '(w, t) := w_timeout w (pdl pr) in (setpc w p 1, YEvent t)
+  | 1%nat =>
+      let w := upd_node w n (fun x => x <| nsumproc ::= fun v => v + (wnow w - pt0 pr) |>) in
+      (* len(pallet.items): an Item has no attribute `items` *)
+      if negb (i_pallet (get_item w (pit pr))) then (crashw w (CAttr 125), YDone) else
+      let w := upd_proc w p (fun x => x <| plst := [0%nat; 0%nat] |>) in
+      sc_run 64 w p n (sc_next w p n)
+  | _ => sc_run 64 w p n (sc_worker_cont w p n)
+  end.
+
+Definition combworker_block (w : world) (p : nat) : world * yld :=
+  let pr := me w p in
+  let n := pown pr in
+  match ppc pr with
+  | 0%nat => sc_run 64 w p n (sc_dispatch w p n (pit pr) 1)
+  | _ => sc_run 64 w p n (sc_worker_cont w p n)
+  end.
+
+(* Splitter.behaviour *)
+Definition splitter_head (w : world) (p n : nat) : world * yld :=
+  let nd := get_node w n in
+  let w := check_state w n in
+  match ninsel nd with
+  | PFirst =>
+      let '(w, toks) := reserve_all w p (nins nd) false in
+      let '(w, c) := w_any_of w toks in
+      (setpc (upd_proc w p (fun x => x <| ptks := toks |>)) p 2, YEvent c)
+  | _ =>
+      let '(w, v) := draw_sel w n false in
+      match v with
+      | None => (crashw w (CValue 120), YDone)
+      | Some i =>
+          if negb (in_range i (length (nins nd))) then (crashw w (CAssert 121), YDone) else
+          let w := logw w (LSel n false (Z.to_nat i)) in
+          let e := nth (Z.to_nat i) (nins nd) 0%nat in
+          let '(w, t) := e_reserve_get w e p in
+          (setpc (upd_proc w p (fun x => x <| paux := t |> <| pix := Z.to_nat i |>)) p 4, YEvent t)
+      end
+  end.
+
+Definition splitter_start (w : world) (p n : nat) (pal : nat) : world * yld :=
+  let '(w, d) := draw_delay w n in
+  if d <? 0 then (crashw w (CAssert 122), YDone) else
+  let req := ptk (me w p) in
+  let '(w, wp, _) := spawn w (proc0 <| pkd := KSplitWorker |> <| pown := n |> <| pit := pal |> <| pdl := d |> <| ptk := req |>) in
+  let w := upd_node w n (fun x => x <| nthreads ::= fun l => l ++ [(wp, false)] |>) in
+  splitter_head w p n.
+
+Definition splitter_block (w : world) (p : nat) : world * yld :=
+  let pr := me w p in
+  let n := pown pr in
+  let nd := get_node w n in
+  match ppc pr with
+  | 0%nat =>
+      match policy_ok (ninsel nd) (length (nins nd)), policy_ok (noutsel nd) (length (nouts nd)) with
+      | Some c, _ => (crashw w c, YDone)
+      | None, Some c => (crashw w c, YDone)
+      | None, None =>
+          if (length (nins nd) <? 1)%nat || (length (nouts nd) <? 1)%nat then (crashw w (CAssert 123), YDone) else
+          let w := upd_node w n (fun x => x <| nstate := 0%nat |>) in
+          let '(w, t) := w_timeout w (nsetup nd) in (setpc w p 1, YEvent t)
+      end
+  | 1%nat => splitter_head (update_state w n 1) p n
+  | 2%nat =>
+      match first_triggered w (ptks pr) with
+      | None => (crashw w (CValue 124), YDone)
+      | Some (idx, tok) =>
+          let w := logw w (LSel n false idx) in
+          let w := cancel_others w (nins nd) (ptks pr) tok false in
+          sc_request (upd_proc w p (fun x => x <| paux := tok |> <| pix := idx |>)) p n 3
+      end
+  | 4%nat => sc_request w p n 3
+  | _ =>
+      let w := occupancy w n true in
+      let '(w, it) := e_get w (nth (pix pr) (nins nd) 0%nat) p (paux pr) n in
+      match it with
+      | None => (w, YDone)
+      | Some pal =>
+          (* pallet.items: an Item has no such attribute *)
+          if i_pallet (get_item w pal) then splitter_start w p n pal else
+          splitter_start w p n pal
+      end
+  end.
+
+(* Combiner.behaviour *)
+Definition combiner_head (w : world) (p n : nat) : world * yld :=
+  let w := check_state w n in
+  let '(w, t) := e_reserve_get w (hd 0%nat (nins (get_node w n))) p in
+  (setpc (upd_proc w p (fun x => x <| paux := t |>)) p 2, YEvent t).
+
+(* reserve qty tokens on every ingredient edge *)
+Definition combiner_reserve (w : world) (p n : nat) : option (world * list nat * list nat) :=
+  let nd := get_node w n in
+  (fix go (k : nat) (es : list nat) (acc : world * list nat * list nat) : option (world * list nat * list nat) :=
+     match es with
+     | [] => Some acc
+     | e :: rest =>
+         match nth_error (nrecipe nd) k with
+         | None => None
+         | Some q =>
+             let acc' := (fix rep (j : nat) (a : world * list nat * list nat) :=
+                            match j with
+                            | O => a
+                            | S j' => let '(w0, ts, ix) := a in
+                                      let '(w1, t) := e_reserve_get w0 e p in rep j' (w1, ts ++ [t], ix ++ [k])
+                            end) q acc in
+             go (S k) rest acc'
+         end
+     end) 1%nat (tl (nins nd)) (w, [], []).
+
+Definition any_triggered (w : world) (toks : list nat) : bool := existsb (fun t => e_trig (get_ev (wk w) t)) toks.
+
+(* the gathering loop head: [ptks] outstanding tokens, [plst] their in-edge indices, [pt1] = any_of event in use *)
+Definition combiner_loop (w : world) (p n : nat) : world * yld :=
+  let pr := me w p in
+  match ptks pr with
+  | [] =>
+      let '(w, d) := draw_delay w n in
+      if d <? 0 then (crashw w (CAssert 130), YDone) else
+      sc_request (upd_proc w p (fun x => x <| pdl := d |>)) p n 5
+  | toks =>
+      if any_triggered w toks then (setpc w p 4, YEvent (Z.to_nat (pt1 pr)))
+      else let '(w, c) := w_any_of w toks in
+           (setpc (upd_proc w p (fun x => x <| pt1 := Z.of_nat c |>)) p 4, YEvent c)
+  end.
+
+Definition combiner_block (w : world) (p : nat) : world * yld :=
+  let pr := me w p in
+  let n := pown pr in
+  let nd := get_node w n in
+  match ppc pr with
+  | 0%nat =>
+      match policy_ok (noutsel nd) (length (nouts nd)) with
+      | Some c => (crashw w c, YDone)
+      | None =>
+          if (length (nins nd) <? 1)%nat || (length (nouts nd) <? 1)%nat then (crashw w (CAssert 131), YDone) else
+          let w := upd_node w n (fun x => x <| nstate := 0%nat |>) in
+          let '(w, t) := w_timeout w (nsetup nd) in (setpc w p 1, YEvent t)
+      end
+  | 1%nat => combiner_head (update_state w n 1) p n
+  | 2%nat =>
+      let '(w, it) := e_get w (hd 0%nat (nins nd)) p (paux pr) n in
+      match it with
+      | None => (w, YDone)
+      | Some pal =>
+          if negb (i_pallet (get_item w pal)) then (crashw w (CRuntime 132), YDone) else
+          match combiner_reserve w p n with
+          | None => (crashw w (CIndex 133), YDone)
+          | Some (w, toks, idxs) =>
+              let '(w, c) := w_any_of w toks in
+              (setpc (upd_proc w p (fun x => x <| pit := pal |> <| ptks := toks |> <| plst := idxs |> <| pt1 := Z.of_nat c |>
+                                                   <| pix := 0%nat |>)) p 3, YEvent c)
+          end
+      end
+  | 3%nat => combiner_loop w p n
+  | 4%nat =>
+      match first_triggered w (ptks pr) with
+      | None => (crashw w (CValue 134), YDone)
+      | Some (ti, tok) =>
+          let eidx := nth ti (plst pr) 0%nat in
+          let '(w, it) := e_get w (nth eidx (nins nd) 0%nat) p tok n in
+          match it with
+          | None => (w, YDone)
+          | Some i =>
+              if i_pallet (get_item w i) then (crashw w (CRuntime 135), YDone) else
+              let w := upd_item w (pit pr) (fun y => y <| i_contents ::= fun l => l ++ [i] |>) in
+              let w := logw w (LPack (wnow w) n (pit pr) i) in
+              let w := upd_proc w p (fun x => x <| ptks := remove_nth ti (ptks pr) |> <| plst := remove_nth ti (plst pr) |>
+                                                <| pix := S (pix pr) |>) in
+              combiner_loop w p n
+          end
+      end
+  | 5%nat =>
+      let w := occupancy w n true in
+      (* print(... self.item_in_process.id ...): None when nothing was gathered in this round *)
+      if Nat.eqb (pix pr) 0 then (crashw w (CAttr 136), YDone) else
+      let w := check_state w n in
+      let w := upd_proc w p (fun x => x <| pt0 := wnow w |>) in
+      let '(w, t) := w_timeout w (pdl pr) in (setpc w p 6, YEvent t)
+  | _ =>
+      let w := upd_node w n (fun x => x <| nsumproc ::= fun v => v + (wnow w - pt0 pr) |>) in
+      let '(w, wp, _) := spawn w (proc0 <| pkd := KCombWorker |> <| pown := n |> <| pit := pit pr |> <| ptk := ptk pr |>
+                                         <| plst := [pit pr; 1%nat] |>) in
+      let w := upd_node w n (fun x => x <| nthreads ::= fun l => l ++ [(wp, false)] |>) in
+      combiner_head w p n
+  end.
+
 Definition block (w : world) (p : nat) : world * yld :=
   match pkd (me w p) with
   | KSourceB => source_block w p
@@ -566,7 +899,10 @@ Definition block (w : world) (p : nat) : world * yld :=
   | KWorker => worker_block w p
   | KFleetAct => fleetact_block w p
   | KFleetMove => fleetmove_block w p
-  | _ => (crashw w (CValue 99), YDone)
+  | KSplitterB => splitter_block w p
+  | KSplitWorker => splitworker_block w p
+  | KCombinerB => combiner_block w p
+  | KCombWorker => combworker_block w p
   end.
 
 (* Process._resume: run blocks until the process waits on an event that has not been processed *)
@@ -670,6 +1006,18 @@ Definition finalize_node (T : Z) (nd : node) : option node :=
           let ts := add 4%nat ((p >? 0) && (b =? 0)) ts in
           let ts := add 5%nat (b >? 0) ts in
           Some (nd1 <| ntstate := ts |> <| nsrep := (np, nb) |> <| nlast := Some T |>)
+      end
+  | NSplitter | NCombiner =>
+      match nlast nd with
+      | None => None
+      | Some l =>
+          let d := T - l in
+          let np := Z.of_nat (length (filter (fun x => negb (snd x)) (nthreads nd))) in
+          let nb := Z.of_nat (length (filter (fun x => snd x) (nthreads nd))) in
+          if negb (Nat.eqb (nnumw nd) (length (r_users (nres nd)))) then None else
+          Some (nd <| nsumproc ::= fun v => v + np * d |> <| nsumblk ::= fun v => v + nb * d |>
+                   <| ntstate ::= upd (nstate nd) (fun v => v + d) |>
+                   <| nocchist ::= upd (nnumw nd) (fun v => v + (T - nocclast nd)) |> <| nocclast := T |>)
       end
   | _ =>
       match nlast nd with
